@@ -106,6 +106,35 @@ def gen_mutants(relfile: str, src: str):
     return uniq
 
 
+def gen_table_mutants(relfile: str, src: str):
+    """Module-level literal tables: integer constants +1 (widths, counts), adjacent dict entries transposed, a string key renamed."""
+    tree = ast.parse(src)
+    lines = src.splitlines(keepends=True)
+    out = []
+
+    def add(node, new_text, op):
+        s, e = span(lines, node)
+        out.append({"file": relfile, "line": node.lineno, "op": op, "old": src[s:e][:80], "new": new_text[:80], "span": (s, e), "text": new_text})
+
+    for st in tree.body:
+        if not isinstance(st, (ast.Assign, ast.AnnAssign)) or st.value is None:
+            continue
+        for n in ast.walk(st.value):
+            if isinstance(n, ast.Constant) and isinstance(n.value, int) and not isinstance(n.value, bool) and 0 <= n.value < 4096:
+                add(n, repr(n.value + 1), "table-int+1")
+            elif isinstance(n, ast.Dict):
+                ks = [k for k in n.keys if isinstance(k, ast.Constant) and isinstance(k.value, str)]
+                for a, b in zip(ks, ks[1:]):
+                    sa, ea = span(lines, a)
+                    sb, eb = span(lines, b)
+                    # transposition of two adjacent keys: replace the span from a to b's end with the keys exchanged
+                    mid = src[ea:sb]
+                    out.append({"file": relfile, "line": a.lineno, "op": "table-keys-transposed", "old": src[sa:ea] + "…" + src[sb:eb], "new": src[sb:eb] + "…" + src[sa:ea], "span": (sa, eb), "text": src[sb:eb] + mid + src[sa:ea]})
+                for k in ks[:1]:
+                    add(k, repr(k.value + "X"), "table-key-renamed")
+    return out
+
+
 def evaluate(m):
     from sa.engine import Engine
 
@@ -151,11 +180,12 @@ def main():
     ap.add_argument("--limit", type=int, default=0)
     ap.add_argument("--jobs", type=int, default=16)
     ap.add_argument("--out", default="/tmp/mutants.json")
+    ap.add_argument("--tables", action="store_true", help="mutate module-level literal tables instead of function bodies")
     a = ap.parse_args()
     muts = []
     for rel in a.files.split(","):
         src = (repo_root() / "src" / "pyrtcm" / rel).read_text(encoding="utf-8")
-        muts.extend(gen_mutants(rel, src))
+        muts.extend(gen_table_mutants(rel, src) if a.tables else gen_mutants(rel, src))
     if a.limit:
         import random
 
